@@ -218,7 +218,7 @@ def summary(spec):
 # MANIFEST-BEGIN
 MANIFEST = {
     'technique': 'reference-model monitor at the get_run_func boundary over generated networks + exactly-once edge accounting and label-uniqueness hooks inside the compile pipeline',
-    'level_text': 'Each generated network is compiled by the real pipeline and its returned function is evaluated at random states with parameters perturbed through the returned arguments; every state derivative is compared (1e-8 relative) with an independent float64/mpmath reference semantics, the returned layout and argument values are checked by value fingerprinting, and hooks inside the compile assert that every frontend connection reaches _generate_edge_equation exactly once and that no two compute-graph variables share a label. Further families: edges through EdgeTemplates (algebraic edge operators, one or two operators, per-edge constants, plain or node-like variable names) and identifiers that are heads/tails of one another around multiply driven inputs. The default vectorized build of the same model (individualized copy) is compared as well for models with several nodes per type, incl. wide groups with one-to-one (permutation) wiring; update_var overrides (arrays over nodes sharing a node template, wildcards) are part of the returned-argument-values clause. Held on the observed models only.',
+    'level_text': 'Each generated network is compiled by the real pipeline and its returned function is evaluated at random states with parameters perturbed through the returned arguments; every state derivative is compared (1e-8 relative) with an independent float64/mpmath reference semantics, the returned layout and argument values are checked by value fingerprinting, and hooks inside the compile assert that every frontend connection reaches _generate_edge_equation exactly once and that no two compute-graph variables share a label. Further families: edges through EdgeTemplates (algebraic edge operators, one or two operators, per-edge constants, plain or node-like variable names) and identifiers that are heads/tails of one another around multiply driven inputs. The default vectorized build of the same model (individualized copy) is compared as well for models with several nodes per type, incl. wide groups with one-to-one (permutation) wiring; update_var overrides (arrays over nodes sharing a node template, wildcards) are part of the returned-argument-values clause. Overrides are also handed to the compile itself (node_values), preferably on variables that already carry a node-level value. Held on the observed models only.',
     'level_note': 'Trusted: vp/ref.py + vp/expr.py (independent semantics), numpy/mpmath arithmetic. Models are restricted to the well-formed class of DESIGN 4a; risk features of open known findings are excluded from the main sweep and exercised by probe families.',
 }
 # MANIFEST-END
